@@ -474,6 +474,21 @@ def _composite(case, ctx, labels, x64, u):
         i = int(np.argmax(np.abs(lj - lj_parts))) if lj.shape == (rows,) else 0
         ctx.fail("composite:forward-logjac", f"row {i}: composite log-Jacobian {lj[i] if lj.shape == (rows,) else lj!r} is not the sum of its parts {lj_parts[i]!r} (reported dtype {lj_i.dtype})", case,
                  logjac_dtype=str(lj_i.dtype), ns=case["ns"], width=case["width"])
+    # the kernels of the MCMC samplers hand NumPy arrays to a transform living in another namespace: the map must give the same
+    # result and must not write into the caller's array
+    if case["ns"] != "numpy":
+        x_np = _np64(xa).astype(np.float32 if case["width"] == "float32" else np.float64)
+        keep = x_np.copy()
+        y_np, _ = c.forward(x_np)
+        if not np.array_equal(x_np, keep, equal_nan=True):
+            ctx.fail("composite:input-overwritten", "forward() wrote into the NumPy array it was given", case)
+        if not np.allclose(_np64(y_np), y, rtol=64 * eps, atol=64 * eps, equal_nan=True):
+            ctx.fail("composite:cross-namespace-input", "forward() of a NumPy array differs from forward() of the same values in the transform's namespace", case)
+        y_keep = _np64(y_i).astype(x_np.dtype)
+        y_in = y_keep.copy()
+        c.inverse(y_in)
+        if not np.array_equal(y_in, y_keep, equal_nan=True):
+            ctx.fail("composite:input-overwritten", "inverse() wrote into the NumPy array it was given", case)
     untouched = [i for i in range(d) if i not in per_cols and i not in bnd_cols] if not case["affine"] else []
     if untouched and not np.array_equal(env.to_np(y_i)[:, untouched], env.to_np(xa)[:, untouched]):
         ctx.fail("composite:untouched-columns", "a column that no part acts on was changed", case)
